@@ -956,6 +956,32 @@ Fixpoint vok_from (prev : N * N * list bool) (before : option (N * N * list bool
   end.
 Definition vok (c : list vsop * list (N * N * list bool)) : bool := vok_from (0, 0, []) None (fst c) (snd c).
 
+(* ================================================================ Part 1d: the GOT slots of abandoned library calls
+   A hooked library call runs through the PLT hook only while its GOT slot points to the hook.  During the call the
+   dynamic linker may overwrite the slot with the resolved address (first call, lazy binding); the exit hook points
+   it back (update_pltgot).  A call left by longjmp never runs its exit hook: restore_jmpbuf_rstack re-arms the slots
+   of the abandoned entries (mcount_plthook_rearm, fixes 93f2adc and 23390dc).  rstack[i] = Some sym for a library
+   call, None for a traced function; got sym = true when the slot points to the hook. *)
+Record gst := { g_arr : N -> option N; g_idx : N; g_got : N -> bool }.
+Definition g_entry (s : gst) (sym : option N) : gst :=
+  {| g_arr := fun i => if i =? g_idx s then sym else g_arr s i; g_idx := g_idx s + 1;
+     g_got := match sym with Some y => fun x => if x =? y then false else g_got s x | None => g_got s end |}.
+Definition rearm (s : gst) (i : N) (got : N -> bool) : N -> bool :=
+  match g_arr s i with Some y => fun x => if x =? y then true else got x | None => got end.
+Definition g_exit (s : gst) : gst :=
+  {| g_arr := g_arr s; g_idx := g_idx s - 1; g_got := rearm s (g_idx s - 1) (g_got s) |}.
+Fixpoint rearm_range (s : gst) (from : N) (n : nat) (got : N -> bool) : N -> bool :=
+  match n with O => got | S k => rearm_range s (from + 1) k (rearm s from got) end.
+(* the exit hook of longjmp: restore_jmpbuf_rstack(count = idx at setjmp time, the setjmp entry included) walks
+   the entries from `first count` up to idx, then the restored setjmp entry is popped by its own (second) exit *)
+Definition g_longjmp (first : N -> N) (s : gst) (count : N) : gst :=
+  {| g_arr := g_arr s; g_idx := count - 1;
+     g_got := rearm_range s (first count) (N.to_nat (g_idx s - first count)) (g_got s) |}.
+Definition first_fixed (count : N) : N := count - 1.        (* since 23390dc *)
+Definition first_legacy (count : N) : N := count.           (* 93f2adc as found: skips the slot the setjmp entry had *)
+(* every slot that does not point to the hook belongs to a call that is still on the shadow stack *)
+Definition ginv (s : gst) : Prop := forall y, g_got s y = false -> exists i, i < g_idx s /\ g_arr s i = Some y.
+
 (* ================================================================ Part 2: replay side *)
 From Coq Require Import ZArith.
 (* one record of a task's stream as replay classifies it (fixup_syms); an EXIT carries the depth field
